@@ -83,6 +83,13 @@ def run(ctx):
         where = rng.choice(["", "PlayFrom(%d) " % rng.choice([0, 1, 96, 384, 5000]), "PlayFrom(%d:1:0) " % rng.choice([1, 2, 3, 9])])
         srcs.append(where + body + rng.choice(["", "?", "c ?", "? c"]))
     srcs += ["@5 c ?", "TR(1) @5 l4 cdef TR(2) r1 r1 ? cdef", "y7,1; ?", "?", "c ? ?"]
+    # per-track settings that are written as a prefix of the chunk (Port) or change what a chunk holds
+    for _ in range(20 if ctx.tier == "quick" else 400):
+        ntr = rng.choice([1, 2, 3, 5])
+        srcs.append("".join("TR=%d %s %s " % (t, rng.choice(["Port(%d)" % rng.choice([0, 1, 2, 15, 16, 255]), "Port=%d;" % rng.choice([0, 1, 3]), "",
+                                                             "TrackName={\"t\"}", "Port(1) Port(2)"]), mmlgen.block(rng, 1, rng.randrange(0, 3), {}))
+                            for t in range(1, ntr + 1)))
+    srcs += ["TR=1 cde TR=2 Port(1) efg", "Port(1) c", "Port(300) c"]
     lines = ["compile_ev\t%s" % vlib.enc_text(s) for s in srcs]
     got = ctx.impl(lines, stall=20)
     # the bytes that are checked are those of the PUBLIC entry point compile(); compile_ev (the same stages called one by
